@@ -178,9 +178,10 @@ impl EntityQuery {
     }
 
     pub fn sql_aliased_name(&self) -> String{
-        self.alias.clone()
+        //quoted: the name can be a SQL keyword or start with a digit
+        format!("\"{}\"", self.alias.clone()
             .unwrap_or(self.name.clone())
-            .replace(".", "$")
+            .replace(".", "$"))
     }
 
 
